@@ -14,5 +14,5 @@ CONSTANTS
  Budget = 3
  RetryLimit = 5
  MaxTok = 12
- Fix <- NoFix
+ Fix <- TreeFix
  Mut = {}
